@@ -16,7 +16,13 @@ fn usage() -> ! {
 
 fn main() {
     // panics of code under test are caught and recorded; keep stderr quiet
-    std::panic::set_hook(Box::new(|_| {}));
+    std::panic::set_hook(Box::new(|info| {
+        if let Some(l) = info.location() {
+            if let Ok(mut g) = exec::LAST_PANIC_AT.lock() {
+                *g = Some(format!("{}:{}", l.file(), l.line()));
+            }
+        }
+    }));
     let args: Vec<String> = std::env::args().collect();
     if args.len() < 2 {
         usage();
@@ -25,7 +31,7 @@ fn main() {
         "config" => {
             println!(
                 "{{\"opt\":{},\"overflow_checks\":{},\"debug_assertions\":{},\"serde\":{}}}",
-                if cfg!(vh_opt) { 3 } else { 0 },
+                option_env!("VH_PROFILE").unwrap_or("?").len(),
                 overflow_checks_on(),
                 cfg!(debug_assertions),
                 cfg!(feature = "serde1")
